@@ -14,7 +14,7 @@ META = dict(
 
 def tasks(tier):
     from vf.core import Task
-    return [Task('props.C08:ob_memo', name='C08/memo-keys', timeout=120)] + bounded_tasks('C08', tier)
+    return [Task('props.C08:ob_memo', name='C08/memo-keys', timeout=120)] + [Task('props.wire:run', name='C08/wire.c08_window', fname='c08_window', timeout=300), Task('props.wire:run', name='C08/wire.c08_weights', fname='c08_weights', timeout=300), Task('props.wire:run', name='C08/wire.c08_project_guards', fname='c08_project_guards', timeout=300)] + bounded_tasks('C08', tier)
 
 
 def ob_memo():
@@ -25,7 +25,7 @@ def ob_memo():
 MANIFEST_ENTRY = dict(
     category='other',
     engine='bounded',
-    technique='bounded run-time contracts on the real functions with independent oracles (stand-in for the contract proofs, never counted as proved)',
+    technique='sidecar contracts on the real functions: wiring / closed-form obligations from the AST discharged by z3 and the ring normaliser where the functions are within reach; bounded run-time contracts with independent oracles for the rest (never counted as proved)',
     text='Projection weights exhaustively for 1<=m<=n<=40 against exact rationals, masks, folded, two-stage and axis-order identities.',
     note='bounded: see coverage.bounded.drivers[].bound in the evidence file for the exact domain of every driver',
 )
